@@ -21,4 +21,5 @@ package sha
 //@   pure
 //@   ensures [len] {C19,C03} err == nil ==> len(h) >= 20 && 2 * len(h) == len(hashString)
 //@   ensures [value] {C03} err == nil ==> string(h) == unhex(hashString)
+//@   ensures [hex-text] {C02} err == nil ==> !contains(hashString, "\n")
 //@   ensures [reject] {C19} err != nil ==> len(h) == 0
